@@ -278,6 +278,7 @@ pub fn run_worker(args: &[String]) -> i32 {
   let mut early_stop = false;
   let mut seen_violation_keys: BTreeSet<String> = BTreeSet::new();
   let mut shrinks_done = 0usize;
+  let mut exhaustive_cases = 0usize;
 
   for idx in 0..my_cases {
     if t0.elapsed().as_secs_f64() > budget {
@@ -285,7 +286,16 @@ pub fn run_worker(args: &[String]) -> i32 {
       break;
     }
     let mut rng = Rng::derive(seed, shard, idx as u64);
-    let case = match catch_unwind(AssertUnwindSafe(|| (prop.gen)(&mut rng, tier))) {
+    // exhaustive enumerations come first: global case number = idx * nshards + shard
+    let enumerated = props::enumeration(prop.id)
+      .and_then(|e| e(idx as u64 * nshards + shard, tier));
+    if enumerated.is_some() {
+      exhaustive_cases += 1;
+    }
+    let case = match catch_unwind(AssertUnwindSafe(|| match enumerated {
+      Some(c) => c,
+      None => (prop.gen)(&mut rng, tier),
+    })) {
       Ok(c) => c,
       Err(_) => {
         let (msg, _) = take_panic().unwrap_or_default();
@@ -414,6 +424,7 @@ pub fn run_worker(args: &[String]) -> i32 {
     "seed": seed,
     "cases_planned": my_cases,
     "cases": cases_run,
+    "exhaustive_cases": exhaustive_cases,
     "distinct_cases": all_fps.len(),
     "nontrivial_fps": nontrivial.iter().map(|f| format!("{f:016x}")).collect::<Vec<_>>(),
     "classes": classes,
